@@ -138,7 +138,7 @@ func snapshot(w *world.World, kind string, h util.Uint160, layout map[string][]b
 		r.q(true, "listConfig")
 		n := int64(10)
 		if v, ok := layout["snapshotCount"]; ok {
-			n = world.Int64(stackitem.NewByteArray(v))
+			n = world.LEInt(v).Int64()
 		}
 		for d := int64(0); d <= n; d++ {
 			r.q(true, "snapshot", d)
